@@ -10,7 +10,8 @@ pub fn key(sym: &str, iso: u16) -> Key {
     ElementSpecification::new(&PERIODIC_TABLE[sym], iso)
 }
 
-pub const POOL: [(&str, u16); 9] = [("C", 0), ("C", 12), ("C", 13), ("H", 0), ("H", 2), ("O", 0), ("Cl", 0), ("N", 0), ("Cl", 37)];
+// the last five collide pairwise on (element_number, most_abundant_isotope): Ar/Ca (40), H/H+ (1), Tc/Pm (0)
+pub const POOL: [(&str, u16); 14] = [("C", 0), ("C", 12), ("C", 13), ("H", 0), ("H", 2), ("O", 0), ("Cl", 0), ("N", 0), ("Cl", 37), ("Ar", 0), ("Ca", 0), ("H+", 0), ("Tc", 0), ("Pm", 0)];
 pub const PROBES: [&str; 18] = ["C", "C[13]", "H", "H[2]", "O", "Cl", "X", "", "é", "C[", "C[13", "C[99]", "N", "c", "C[013]", "Ac[0]", "Cl[37]", "C[0]"];
 
 #[derive(Clone)]
@@ -160,7 +161,7 @@ fn gen_count(rng: &mut Rng) -> i32 {
 }
 
 pub fn gen_op(rng: &mut Rng, mode: &str, bound: &mut [i64; 3], r: usize) -> Op {
-    let strs_ok = ["C", "C[13]", "H", "H[2]", "O", "Cl", "N", "Cl[37]", "C[12]"];
+    let strs_ok = ["C", "C[13]", "H", "H[2]", "O", "Cl", "N", "Cl[37]", "C[12]", "Ca", "Ar", "H+", "Pm"];
     let strs_bad = ["X", "", "é", "C[", "C[13", "C[99]", "c", "C[0]"];
     let q = rng.below(3) as usize;
     let w = rng.below(100);
